@@ -13,6 +13,7 @@ import Driver.Util
 import FV.Model.Peg
 import FV.Model.IdlSyntax
 import FV.Model.IdlActions
+import FV.Model.IdlIncludes
 import FV.Generated.Grammar
 
 namespace Driver.C10
@@ -151,24 +152,24 @@ def unarchive (b : Bytes) : Option (List (String × List Char)) :=
       pure (String.ofList n, t)
     | [] => none
 
-def dirOf (path : String) : String :=
-  match (path.splitOn "/").reverse with
-  | _ :: d => "/".intercalate d.reverse ++ (if d.isEmpty then "" else "/")
-  | [] => ""
-
-/-- Deep dump: the file, then the files it includes (resolved relative to its directory), sorted
-by include name — `parseFrugal`'s recursion with the archive as the file system. -/
-def deepDump (files : List (String × Outcome)) : Nat → String → Option String
-  | 0, _ => none
-  | fuel + 1, path =>
-    match files.lookup path with
-    | some (.ok f) => do
-      let incs := sortBy (fun a b => str a.name < str b.name) f.includes
-      let subs ← incs.mapM fun i => do
-        let d ← deepDump files fuel (dirOf path ++ str i.value)
-        pure (str i.name ++ "=" ++ d)
-      pure (dFile f ++ sec "Q" subs)
+/-- The archive as the file system of `FV.Inc`: cleaned root-relative path ↦ (shallow dump, include edges). -/
+def fsOf (files : List (String × Outcome)) : FV.Inc.FS String :=
+  files.filterMap fun (p : String × Outcome) =>
+    match p.2 with
+    | .ok f => some (FV.Inc.cleanPath (p.1.splitOn "/"),
+        { payload := dFile f, includes := f.includes.map fun i => (str i.name, (str i.value).splitOn "/") })
     | _ => none
+
+/-- Deep dump of a meaning: the file's own dump, then per include edge (sorted by include name) the
+include name, the origin path and the deep dump of that file. -/
+partial def dDeep : FV.Inc.Deep String → String
+  | .node _ payload subs =>
+    payload ++ sec "Q" ((sortBy (fun (a b : String × FV.Inc.Deep String) => a.1 < b.1) subs).map fun (p : String × FV.Inc.Deep String) =>
+      p.1 ++ "@" ++ hexOf ("/".intercalate p.2.origin).toUTF8.toList ++ "=" ++ dDeep p.2)
+
+/-- `parseFrugal` over the archive: the model of the code that exists (cache keyed by the joined path). -/
+def deepDump (files : List (String × Outcome)) (fuel : Nat) (path : String) : Option String :=
+  (FV.Inc.deepC id fuel (fsOf files) [] (FV.Inc.cleanPath (path.splitOn "/"))).map fun r => dDeep r.2
 
 def showOutcome (o : Outcome) (f : File → String) : String :=
   match o with
